@@ -152,7 +152,7 @@ def closed_events(ctx):
     S = numqi.state
     ev = []
     for fam, fns in (('Werner', [S.get_Werner_ree, S.get_Werner_GME, S.get_Werner_eof]), ('Isotropic', [S.get_Isotropic_ree, S.get_Isotropic_GME, S.get_Isotropic_eof])):
-        for d in (2, 3, 4):
+        for d in (2, 3, 4, 5):
             lo = Fraction(-1) if fam == 'Werner' else Fraction(-1, d * d - 1)
             thr = Fraction(1, d) if fam == 'Werner' else Fraction(1, d + 1)
             grid = sorted({lo, lo / 2, Fraction(0), thr / 2, thr, thr + Fraction(1, 100), (thr + 1) / 2, Fraction(9, 10), Fraction(99, 100), Fraction(1)})
@@ -164,6 +164,24 @@ def closed_events(ctx):
                         ctx.case(('closed', fn.__name__, d, str(a)))
                     except Exception as ex:
                         ctx.violation('C18:exception:%s' % fn.__name__, type(ex).__name__ + ': ' + str(ex)[:160], dict(d=d, alpha=str(a)))
+            # the shape on the entangled range: uniform grid threshold .. 1 (d up to 5: the piecewise isotropic EOF has a branch only for d >= 3,
+            # with a slope factor that is trivial for d = 3)
+            for fn in fns:
+                if fn.__name__.endswith('_ree') and d > 3:
+                    continue
+                try:
+                    grid = np.linspace(float(thr), 1.0, 201)
+                    vals = np.array([float(np.asarray(fn(d, float(x))).reshape(-1)[0]) for x in grid]) if fn.__name__.endswith('_ree') else np.asarray(fn(d, grid), dtype=float).reshape(-1)
+                    endval = -1
+                    if fn.__name__ == 'get_Isotropic_eof':
+                        endval = int(round(math.log(d) * 10 ** 6))
+                    elif fn.__name__ == 'get_Werner_eof':
+                        endval = int(round(math.log(2) * 10 ** 6))
+                    ev.append(dict(op='closed_shape', family=fam, fn=fn.__name__, d=d, S=10 ** 6, endval=endval,
+                                   vals=[int(round(v * 10 ** 6)) if math.isfinite(v) else -10 ** 9 for v in vals]))
+                    ctx.case(('closed_shape', fn.__name__, d))
+                except Exception as ex:
+                    ctx.violation('C18:exception:%s' % fn.__name__, type(ex).__name__ + ': ' + str(ex)[:160], dict(d=d, shape=True))
             # both sides of the threshold, 2^-10 .. 2^-50 away from it
             for fn in fns:
                 try:
@@ -236,6 +254,8 @@ def run(ctx):
         e = ev[gi]
         if e['op'] == 'upb':
             ctx.violation('C18:load_upb:orthonormal-product:%s' % e['kind'], 'UPB is not an orthonormal set of product vectors / complement rank differs from D-|UPB|', dict(kind=e['kind']))
+        elif e['op'] == 'closed_shape':
+            ctx.violation('C18:%s:shape' % e['fn'], '%s(d=%d, alpha) on the entangled range is not a non-decreasing continuous function ending at the documented value' % (e['fn'], e['d']), {k: v for k, v in e.items() if k != 'vals'})
         elif e['op'] == 'closed_near':
             ctx.violation('C18:%s:near-threshold' % e['fn'], '%s(d=%d, alpha=threshold%+d/2^%d) = %s: not finite / not exactly zero on the separable side / negative or above the value at threshold+1/100 on the entangled side'
                           % (e['fn'], e['d'], e['k'], e['e'], e['value']), e)
